@@ -172,15 +172,14 @@ Qed.
 
 (** model = documented policy, for every configuration with a non-empty
     default folder, every well-formed user table, every list of recipient
-    addresses and every message, outside the three finding classes *)
+    addresses and every message, outside the three finding class *)
 Theorem policy_exact cfg d addrs m :
   cfg_ok cfg -> wf_db d -> classify cfg d addrs m = None ->
   txn_outcomes (run_txn_addr cfg d addrs m) = map erase (fst (spec_txn cfg d addrs m)) /\
   do_db (to_data (run_txn_addr cfg d addrs m)) = snd (spec_txn cfg d addrs m).
 Proof.
   intros Hcfg Hwf HC. unfold classify in HC.
-  destruct (classify_rcpts cfg d 0 addrs) eqn:ECR; [discriminate|].
-  destruct (rcpt_phase cfg d addrs [] ECR) as [R1 R2]. cbn [length Z.of_nat app] in R1, R2.
+  destruct (rcpt_phase cfg d addrs []) as [R1 R2]. cbn [length Z.of_nat app] in R1, R2.
   unfold run_txn_addr, spec_txn, txn_outcomes.
   destruct (handle_rcpts_addr cfg d [] addrs) as [rs recs] eqn:EH. cbn [fst snd] in R1, R2.
   fold (spec_accepted cfg d addrs) in R2. subst recs.
